@@ -23,7 +23,7 @@ var R = hx.NewRecorder("C15", "cases = (endpoint kind: GMSSL client | GMSSL-only
 	"oracle = Handshake() returns (quiescence of the in-memory transport turns waiting into EOF; a read-after-EOF counter catches spinning), returns an error for every true deviation, HandshakeComplete stays false, no panic; legal variations (fragmented or coalesced messages, unknown ticket) must still succeed; non-trivial = deviation applied after at least one valid message or in the first message; distinct by hash of the plan")
 
 func TestMain(m *testing.M) {
-	R.Require("dev:big_record", "replay_deep:gmclient", "replay_deep:tlsclient", "replay_deep:gmserver", "replay_deep:tlsserver", "replay_deep:autoserver", "replay_control", "replay:omit_msg", "replay:hello_ext", "replay:swap_msgs", "hello_vector_lengths", "dev:cke_ciphertext_byte", "dev:cert_list", "peer_pressed_on_after_alert", "endpoint:gmclient", "endpoint:gmserver", "endpoint:autoserver", "endpoint:tlsserver", "endpoint:tlsclient", "vers_sweep_done", "dev:omit", "dev:repeat", "dev:retype", "dev:reorder", "dev:truncate", "dev:len_field", "dev:split", "dev:coalesce",
+	R.Require("hello_ext_sweep", "dev:big_record", "replay_deep:gmclient", "replay_deep:tlsclient", "replay_deep:gmserver", "replay_deep:tlsserver", "replay_deep:autoserver", "replay_control", "replay:omit_msg", "replay:hello_ext", "replay:swap_msgs", "hello_vector_lengths", "dev:cke_ciphertext_byte", "dev:cert_list", "peer_pressed_on_after_alert", "endpoint:gmclient", "endpoint:gmserver", "endpoint:autoserver", "endpoint:tlsserver", "endpoint:tlsclient", "vers_sweep_done", "dev:omit", "dev:repeat", "dev:retype", "dev:reorder", "dev:truncate", "dev:len_field", "dev:split", "dev:coalesce",
 		"dev:oversize", "dev:ccs_early", "dev:appdata_early", "dev:alert_fatal", "dev:unknown_record", "dev:close", "dev:record_overflow", "replay_perturbed", "legal_must_succeed", "cke_1byte", "hostile_suites")
 	for d := 0; d <= 5; d++ {
 		R.Require(fmt.Sprintf("depth:%d", d))
@@ -555,6 +555,19 @@ func TestC15_KeyExchangeCiphertext(t *testing.T) {
 
 // ---- recorded honest flights replayed with one perturbation against all five endpoint kinds
 
+// kindOf / isClientEP: which recording an endpoint kind replays, and which side it is.
+func kindOf(ep string) string {
+	switch ep {
+	case "tlsserver", "tlsclient", "autoserver_tls":
+		return "tls"
+	case "tlsserver_rsa", "tlsclient_rsa":
+		return "tlsrsa" // RSA key exchange: no ServerKeyExchange, so a replayed server flight carries a client to its Finished
+	}
+	return "gm"
+}
+
+func isClientEP(ep string) bool { return ep == "gmclient" || ep == "tlsclient" || ep == "tlsclient_rsa" }
+
 type recorded struct {
 	c2s, s2c []byte
 }
@@ -574,6 +587,10 @@ func record(kind string) *recorded {
 	} else {
 		cc, sc = tlsx.TLSClient(p, "recc"), tlsx.TLSServer(p, p.RSASrv, "recs")
 		cc.NextProtos, sc.NextProtos = []string{"h2", "http/1.1", "x"}, []string{"http/1.1", "h2"}
+		if kind == "tlsrsa" {
+			cc.CipherSuites, sc.CipherSuites = []uint16{0x009c, 0x002f}, []uint16{0x009c, 0x002f}
+			cc.NextProtos, sc.NextProtos = nil, nil
+		}
 	}
 	r := tlsx.Run(cc, sc, tlsx.Script{ClientSend: []byte("ping"), ServerSend: []byte("pong")})
 	if r.Client.HSErr != nil || r.Server.HSErr != nil {
@@ -721,14 +738,11 @@ func TestC15_ReplayPerturbed(t *testing.T) {
 	n := 0
 	hx.Check(t, hx.N(2500, 30000), func(t *rapid.T) {
 		n++
-		ep := rapid.SampledFrom([]string{"gmclient", "gmserver", "autoserver", "tlsserver", "tlsclient", "autoserver_tls"}).Draw(t, "endpoint")
-		kind := "gm"
-		if ep == "tlsserver" || ep == "tlsclient" || ep == "autoserver_tls" {
-			kind = "tls"
-		}
+		ep := rapid.SampledFrom(fuzzEndpoints).Draw(t, "endpoint")
+		kind := kindOf(ep)
 		rec := record(kind)
 		stream := rec.c2s
-		isClient := ep == "gmclient" || ep == "tlsclient"
+		isClient := isClientEP(ep)
 		if isClient {
 			stream = rec.s2c
 		}
@@ -813,6 +827,49 @@ func TestC15_HelloVectorLengths(t *testing.T) {
 	R.Subspace("ClientHello (TLS with ALPN/SNI/tickets, and GMSSL): every offset x width 1..2 x length-like values, against every server kind (quick: half of the grid)", n, hx.Thorough())
 }
 
+// every length-consistent rebuild of the extension block of the recorded ClientHello (against the server kinds) and of
+// the recorded ServerHello (against the client kinds, followed by the rest of the recorded server flight)
+func TestC15_HelloExtensionSweep(t *testing.T) {
+	var n int64
+	for _, ep := range []string{"gmserver", "autoserver", "tlsserver", "autoserver_tls", "tlsserver_rsa", "gmclient", "tlsclient", "tlsclient_rsa"} {
+		rec := record(kindOf(ep))
+		stream := rec.c2s
+		if isClientEP(ep) {
+			stream = rec.s2c
+		}
+		recs := wire.SplitRecords(stream)
+		// the hello is the first handshake message of the first record
+		first := recs[0]
+		hl := 4 + (int(first[6])<<16 | int(first[7])<<8 | int(first[8]))
+		if first[0] != 22 || 5+hl > len(first) {
+			t.Fatalf("harness: unexpected first record for %s", ep)
+		}
+		hello, restOfRecord := first[5:5+hl], first[5+hl:]
+		for _, m := range gen.HelloExtMutations(hello, hx.Thorough()) {
+			var out []byte
+			out = append(out, 22, first[1], first[2], byte(len(m.Data)>>8), byte(len(m.Data)))
+			out = append(out, m.Data...)
+			if len(restOfRecord) > 0 {
+				out = append(out, 22, first[1], first[2], byte(len(restOfRecord)>>8), byte(len(restOfRecord)))
+				out = append(out, restOfRecord...)
+			}
+			for _, r := range recs[1:] {
+				out = append(out, r...)
+			}
+			hsErr, pn, complete := replayAgainst(ep, out, "hes")
+			if pn != nil {
+				t.Fatalf("%s PANICKED on a hello whose extension block was rebuilt (%s): %s\n hello: %x", ep, m.Note, pn, m.Data)
+			}
+			if hsErr == nil || complete {
+				t.Fatalf("%s completed a handshake from a replayed flight with a rebuilt hello (%s)", ep, m.Note)
+			}
+			n++
+		}
+		R.Case(true, hx.HashKey("hes", ep), "hello_ext_sweep", "endpoint:"+ep)
+	}
+	R.Subspace("length-consistent extension-block rebuilds of the recorded hellos x 8 endpoint kinds", n, true)
+}
+
 // replayAgainst feeds one byte stream, then end of input, to a fresh endpoint of the given kind.
 func replayAgainst(ep string, stream []byte, seed string) (hsErr error, pn *hx.PanicInfo, complete bool) {
 	hsErr, pn, complete, _ = replayAgainstW(ep, stream, seed)
@@ -835,6 +892,14 @@ func replayAgainstW(ep string, stream []byte, seed string) (hsErr error, pn *hx.
 		tc := tlsx.TLSClient(p, seed)
 		tc.NextProtos = []string{"h2", "http/1.1", "x"} // as in the recording: the recorded ServerHello selects one
 		conn, peerW = gmtls.Client(cw, tc), sw
+	case "tlsclient_rsa":
+		tc := tlsx.TLSClient(p, seed)
+		tc.CipherSuites = []uint16{0x009c, 0x002f}
+		conn, peerW = gmtls.Client(cw, tc), sw
+	case "tlsserver_rsa":
+		ts := tlsx.TLSServer(p, p.RSASrv, seed)
+		ts.CipherSuites = []uint16{0x009c, 0x002f}
+		conn, peerW = gmtls.Server(sw, ts), cw
 	case "gmserver":
 		sc := tlsx.GMServer(p, seed)
 		sc.ClientAuth, sc.ClientCAs = gmtls.RequestClientCert, p.RootsSM2
@@ -870,13 +935,10 @@ func replayAgainstW(ep string, stream []byte, seed string) (hsErr error, pn *hx.
 // (say, because the configuration no longer matches the recording) would make the perturbation runs vacuous
 func TestC15_ReplayControl(t *testing.T) {
 	for _, ep := range fuzzEndpoints {
-		kind := "gm"
-		if ep == "tlsserver" || ep == "tlsclient" || ep == "autoserver_tls" {
-			kind = "tls"
-		}
+		kind := kindOf(ep)
 		rec := record(kind)
 		stream, own := rec.c2s, rec.s2c
-		if ep == "gmclient" || ep == "tlsclient" {
+		if isClientEP(ep) {
 			stream, own = rec.s2c, rec.c2s
 		}
 		hsErr, pn, complete, wrote := replayAgainstW(ep, stream, "control")
@@ -896,31 +958,30 @@ func TestC15_ReplayControl(t *testing.T) {
 		// ServerKeyExchange (it signs the randoms), which is after ServerHello and Certificate were accepted. This is a
 		// coverage indicator (class replay_deep:<endpoint>, listed as missing when not reached), not an oracle.
 		deep := wrote >= first*3/4
-		if ep == "gmclient" || ep == "tlsclient" {
+		if isClientEP(ep) && kindOf(ep) != "tlsrsa" {
 			e := strings.ToLower(fmt.Sprint(hsErr))
 			deep = strings.Contains(e, "keyexchange") || strings.Contains(e, "key exchange") || strings.Contains(e, "signature") || strings.Contains(e, "verif")
 		}
 		if deep {
 			R.Class("replay_deep:" + ep)
+		} else {
+			fmt.Printf("note: control replay against %s stopped early: wrote %d of %d bytes, hs=%v\n", ep, wrote, first, hsErr)
 		}
 		R.Case(true, hx.HashKey("rctl", ep), "replay_control")
 	}
 }
 
-var fuzzEndpoints = []string{"gmclient", "gmserver", "autoserver", "tlsserver", "tlsclient", "autoserver_tls"}
+var fuzzEndpoints = []string{"gmclient", "gmserver", "autoserver", "tlsserver", "tlsclient", "autoserver_tls", "tlsclient_rsa", "tlsclient_rsa", "tlsserver_rsa"}
 
 // FuzzC15Stream: coverage-guided companion of TestC15_ReplayPerturbed (thorough tier only, run by the driver).
 // Input = the complete byte stream a peer sends before closing; oracle = the endpoint returns an error (its randoms
 // differ from every recorded session, so no stream can complete the handshake), never panics, never spins.
 func FuzzC15Stream(f *testing.F) {
 	for i, ep := range fuzzEndpoints {
-		kind := "gm"
-		if ep == "tlsserver" || ep == "tlsclient" || ep == "autoserver_tls" {
-			kind = "tls"
-		}
+		kind := kindOf(ep)
 		rec := record(kind)
 		stream := rec.c2s
-		if ep == "gmclient" || ep == "tlsclient" {
+		if isClientEP(ep) {
 			stream = rec.s2c
 		}
 		f.Add(uint8(i), stream)
